@@ -233,7 +233,8 @@ def atom_classes(reg) -> str:
 
 
 def hypotheses_in_coq(run, groups, records, tag="hyp", per_file=12):
-    """-> {id(record): code}, code = valid*4 + guard*2 + unamb, plus 8 when the model round trip holds"""
+    """-> {id(record): code}, code = valid*4 + guard*2 + unamb, +8 when the model round trip holds,
+    +16 fix_ok, +32 when the model's weak fixpoint holds, +64 mar = Ok"""
     files, order = {}, []
     by_group = {}
     for rec in records:
@@ -257,7 +258,14 @@ def hypotheses_in_coq(run, groups, records, tag="hyp", per_file=12):
                      f"  + (if union_unamb rt lv E {coremodel.FUEL} t v then 1 else 0)\n"
                      f"  + match mar rt E {coremodel.FUEL} t v with\n"
                      f"    | Ok w => match unm rt E {coremodel.FUEL} t w with Ok v' => if pv_sim (norm_pv acls v') (norm_pv acls v) then 8 else 0 | _ => 0 end\n"
-                     f"    | _ => 0 end.\n"
+                     f"    | _ => 0 end\n"
+                     f"  + (if fix_ok rt lv E {coremodel.FUEL} t v then 16 else 0)\n"
+                     f"  + match mar rt E {coremodel.FUEL} t v with\n"
+                     f"    | Ok w => match unm rt E {coremodel.FUEL} t w with\n"
+                     f"              | Ok v' => match mar rt E {coremodel.FUEL} t (norm_pv acls v') with Ok w' => if pv_eqb w' w then 32 else 0 | _ => 0 end\n"
+                     f"              | _ => 0 end\n"
+                     f"    | _ => 0 end\n"
+                     f"  + match mar rt E {coremodel.FUEL} t v with Ok _ => 64 | _ => 0 end.\n"
                      f"Definition codes := map code inputs.\n")
             text += base.replace(f"End {nm}.\n", extra + f"End {nm}.\n")
             names.append(nm)
@@ -543,11 +551,74 @@ def same_temporal_deep(a, b) -> bool:
     return True
 
 
+def value_expr(v) -> str:
+    """a Python expression that rebuilds v (in the namespace of eval_case / of the generated module)"""
+    if isinstance(v, enum.Enum):
+        return f"{type(v).__name__}.{v.name}"
+    t = type(v)
+    if t is list:
+        return "[" + ", ".join(value_expr(x) for x in v) + "]"
+    if t is tuple:
+        return "(" + "".join(value_expr(x) + ", " for x in v) + ")"
+    if isinstance(v, tuple) and hasattr(v, "_fields"):
+        return f"{t.__name__}(" + ", ".join(value_expr(x) for x in v) + ")"
+    if t is set:
+        return "{" + ", ".join(value_expr(x) for x in v) + "}" if v else "set()"
+    if t is frozenset:
+        return "frozenset([" + ", ".join(value_expr(x) for x in v) + "])"
+    if t is collections.deque:
+        return "collections.deque([" + ", ".join(value_expr(x) for x in v) + "])"
+    if t is dict:
+        return "{" + ", ".join(f"{value_expr(a)}: {value_expr(b)}" for a, b in v.items()) + "}"
+    if t is collections.OrderedDict:
+        return "collections.OrderedDict([" + ", ".join(f"({value_expr(a)}, {value_expr(b)})" for a, b in v.items()) + "])"
+    if t is collections.defaultdict:
+        return "collections.defaultdict(None, {" + ", ".join(f"{value_expr(a)}: {value_expr(b)}" for a, b in v.items()) + "})"
+    if dataclasses.is_dataclass(v):
+        return f"{t.__name__}(" + ", ".join(f"{f.name}={value_expr(getattr(v, f.name))}" for f in dataclasses.fields(v)) + ")"
+    if t.__module__.startswith("verif_"):
+        names = list(getattr(t, "__slots__", ())) or list(vars(v))
+        return f"{t.__name__}(" + ", ".join(f"{n}={value_expr(getattr(v, n))}" for n in names if hasattr(v, n)) + ")"
+    if t in (decimal.Decimal, fractions.Fraction, uuid.UUID):
+        return {decimal.Decimal: "decimal.", fractions.Fraction: "fractions.", uuid.UUID: "uuid."}[t] + repr(v)
+    if isinstance(v, pathlib.PurePath):
+        return "pathlib." + repr(v)
+    return repr(v)
+
+
+def ann_expr(ann) -> str:
+    s = repr(ann)
+    s = re.sub(r"<(?:class|enum) '([\w.]+)'>", r"\1", s)
+    for pre in ("props.c01.", "verif_c01_adv."):
+        s = s.replace(pre, "")
+    s = re.sub(r"verif_core_\w+?_\d+\.", "", s)
+    return s.replace("NoneType", "type(None)")
+
+
+def make_replay(ann, v):
+    try:
+        c = {"type": ann_expr(ann), "value": value_expr(v)}
+        a2, _, v2 = eval_case(c)
+        if repr(a2) == repr(ann) and coreprop.same(v2, v):
+            return c
+    except Exception:
+        pass
+    return None
+
+
 def _fail(cls, ann, v, got, expected, ctx, **kw):
     f = {"class": cls, "type": repr(ann)[:300], "value": repr(v)[:400], "got": str(got)[:400],
          "expected": str(expected)[:400], "key": json.dumps(["C01", cls, repr(ann)[:200], repr(v)[:200]])}
     f.update(kw)
     f.update(ctx)
+    if "tdesc" in f:
+        f["value"] = value_expr(v)[:4000]
+    elif "replay" not in f:
+        rp = make_replay(ann, v)
+        if rp is not None:
+            f["replay"] = rp
+        else:
+            f["replay_note"] = "annotation uses objects created at run time (NewType / alias): re-run the check with the same seed"
     return f
 
 
@@ -1074,7 +1145,9 @@ def correspond(run: lib.Run):
     # hypotheses of the theorem on the generated (T, v)
     codes = hypotheses_in_coq(run, groups, records)
     run._c01_codes = codes
-    hist = collections.Counter(codes.values())
+    hist = collections.Counter(c & 15 for c in codes.values())
+    fx = collections.Counter(("fix_ok" if c & 16 else "not_fix_ok") + ("+model_fixpoint" if c & 32 else "") +
+                             ("+ambiguous" if (c & 4) and not (c & 1) else "") for c in codes.values())
     not_valid, instance_broken, in_scope = [], [], 0
     for rec in records:
         c = codes.get(id(rec))
@@ -1094,9 +1167,12 @@ def correspond(run: lib.Run):
             if not (c & 8):
                 desc["theorem_instance_broken"] = True
                 instance_broken.append(desc)
+        if (c & 16) and (c & 64) and not (c & 32):
+            desc["fixpoint_theorem_instance_broken"] = True
+            instance_broken.append(desc)
     run.record_corr("theorem-hypotheses-on-generated-values", len(codes), instance_broken + not_valid, in_scope,
                     {"code_histogram(valid*4+guard*2+unamb*1,+8=model round trip)": {str(k): v for k, v in sorted(hist.items())},
-                     "inside_all_hypotheses": in_scope,
+                     "inside_all_hypotheses": in_scope, "fixpoint_form": dict(fx),
                      "model_valid_disagrees_with_oracle_is_valid": len(not_valid),
                      "hypotheses_hold_but_model_round_trip_fails": len(instance_broken)})
     sample_laws(run, records)
